@@ -240,7 +240,7 @@ def c09_extra(rep, rnd, first_id):
             scn = {"type": t, "mode": {"endian": e, "align": False, "ptr": 8}, "consts": {}, "defs": A.render(t, {})}
             for data in (b"A", b"AB", b"\x00", b"\xff\x01"):
                 out.append(codec.enrich(codec.parse_record(first_id + n + len(out), scn, data, 0, r2.random() < 0.5), forms=True))
-    # "to the end of the stream" measured from where the structure starts, not from the stream's first byte (seed S84): arrays of
+    # "to the end of the stream" measured from where the structure starts, not from the stream's first byte (seed S85): arrays of
     # every element kind, behind a header or not, at a non-zero position, on input that holds a whole number of elements
     u8 = A.t_int("uint8")
     pair = A.t_struct("ep", [A.field("a", u8), A.field("b", A.t_int("uint16"))])
@@ -297,7 +297,7 @@ def bitfield_family(rnd, thorough):
         seqs.add((total,))
         seqs.add((1, total - 1) if total > 1 else (1,))
         seqs.add((total, 1))
-        # wider than the storage type itself, opening a fresh unit: first member, after an exhausted unit, after another type (seed S83)
+        # wider than the storage type itself, opening a fresh unit: first member, after an exhausted unit, after another type (seed S84)
         seqs.add((total + 1,))
         seqs.add((total, total + 1))
         seqs.add((1, total + rnd.randrange(1, 9)))
@@ -467,6 +467,20 @@ def c07_extra(rep, rnd, first_id):
         start = codec.start_for(rnd, scn)
         data = bytes(rnd.randrange(256) for _ in range(start)) + bytes(rnd.randrange(1, 256) for _ in range(rnd.randrange(0, 24)))
         out.append(codec.parse_record(first_id + len(out), scn, data, start, rnd.random() < 0.5, both=True))
+    # the elements of a to-end-of-stream / null-terminated / counted array are themselves arrays whose length names an earlier field
+    # (or a constant that a field shadows): the inner length is evaluated over the fields parsed so far for EVERY element (seed S94)
+    for _ in range(200 if rep.tier == "thorough" else 40):
+        mode = dict(codec.gen_mode(rnd), align=False)
+        elem = rnd.choice([u8, A.t_int("uint16"), A.t_int("uint24"), A.t_char()])
+        outer = rnd.choice([A.L_EOF, A.L_EOF, A.L_fixed(2), A.L_expr({"k": "id", "name": "cnt"})])
+        consts = {"width": 2} if rnd.random() < 0.4 else {}
+        inner = A.t_arr(elem, A.L_expr({"k": "id", "name": "width"}))
+        t = A.t_struct("ROWS", [A.field("cnt", u8), A.field("width", u8), A.field("rows", A.t_arr(inner, outer))])
+        scn = {"type": t, "mode": mode, "consts": consts, "defs": A.render(t, consts)}
+        w = rnd.choice([0, 1, 3, 3])
+        body = bytes([rnd.choice([0, 1, 2]), w]) + bytes(rnd.randrange(1, 256) for _ in range(w * A.size_hint(elem) * rnd.randrange(0, 4) if hasattr(A, "size_hint") else w * 6))
+        start = rnd.choice([0, 0, 4])
+        out.append(codec.parse_record(first_id + len(out), scn, bytes(start) + body, start, rnd.random() < 0.5, both=True))
     return out
 
 
@@ -497,6 +511,21 @@ def c08_extra(rep, rnd, first_id):
         data = bytes(rnd.randrange(256) for _ in range(start)) + bytes(range(1, 41))
         for compiled in (True, False):
             out += codec.cut_and_fault_records(first_id + len(out), scn, data, start, compiled, rnd, max_cuts=48, max_faults=6)
+    # arrays of every element kind with a fixed and with a field-given count, cut at EVERY byte - in particular inside the last
+    # element (seed S95: a bulk reader that counts a partial trailing chunk as an element)
+    u8 = A.t_int("uint8")
+    e24 = A.t_enum("EC", "uint24", [("A", 1), ("B", 2)])
+    kinds = [A.t_int("uint24"), A.t_int("int48"), A.t_int("int128"), e24, A.t_int("uint16"), A.t_int("uint32"), A.t_float("float"), A.t_wchar(),
+             A.t_ptr(u8), A.t_struct("cp", [A.field("a", u8), A.field("b", A.t_int("uint24"))])]
+    for elem in (kinds if rep.tier == "thorough" else rnd.sample(kinds, 5)):
+        for ln in (A.L_fixed(3), A.L_expr({"k": "id", "name": "n"})):
+            t = A.t_struct("CUTA", [A.field("n", u8), A.field("x", A.t_arr(elem, ln)), A.field("tail", u8)])
+            mode = {"endian": rnd.choice("<>"), "align": False, "ptr": 4}
+            scn = {"type": t, "mode": mode, "consts": {}, "defs": A.render(t, {})}
+            start = rnd.choice([0, 3])
+            data = bytes(rnd.randrange(256) for _ in range(start)) + bytes([2]) + bytes(rnd.randrange(1, 256) for _ in range(60))
+            for compiled in (True, False):
+                out += codec.cut_and_fault_records(first_id + len(out), scn, data, start, compiled, rnd, max_cuts=80, max_faults=4)
     for _ in range(n):
         scn = codec.gen_scenario(rnd)
         start = codec.start_for(rnd, scn)
